@@ -325,7 +325,10 @@ func init() {
 		var hist []Fail
 		if err == nil {
 			hist = privateResultFails("C13", "b32.DecodeStringNoPadding", func() []byte { x, _ := b32.DecodeStringNoPadding(s); return x },
-				func() { b32.DecodeStringNoPadding(strings.TrimRight(b32.EncodeToString([]byte{1, 2, 3, 4, 5, 6}), "=")); b32.DecodeStringNoPadding(s + s) })
+				func() {
+					b32.DecodeStringNoPadding(strings.TrimRight(b32.EncodeToString([]byte{1, 2, 3, 4, 5, 6}), "="))
+					b32.DecodeStringNoPadding(s + s)
+				})
 		}
 		fails := codec32NoPad.checkDecoder(s, r, err)
 		fails = append(fails, twinDec("b32.DecodeStringNoPadding/DecodeStringSafeNoPadding", s, b32.MAX_DECODE_SIZE, b32.DecodeStringNoPadding, b32.DecodeStringSafeNoPadding)...)
